@@ -1,5 +1,6 @@
 import Oidc.Proofs.Handler4
 import Oidc.Proofs.World4
+import Oidc.Proofs.WorldHist
 import Oidc.Facts
 /-! # C01 — authentication gate (property theorems only)
 
@@ -66,7 +67,31 @@ theorem unauthenticated_redirects (c : Cfg) (e : Env) (r : Req) (j : Jar) (fuel 
     (serveJar c e r j fuel).1.calls = [] :=
   ⟨(Oidc.World.unusable_redirects c e r j fuel hpath hno hrt).1, (Oidc.World.unusable_redirects c e r j fuel hpath hno hrt).2.1⟩
 
-/-! non-vacuity: the empty jar is redirected; an excluded path passes -/
+/-- **history.** over every sequence of requests of one browser, each in its own environment (time, provider answers,
+    randomness, instance): a jar that did not carry the authenticated flag carries it afterwards only if some step of the
+    sequence was a login event — a callback or refresh that stored a session made from an ID token that passed `VerifyToken` -/
+theorem issued_only_by_login (c : Cfg) (fuel : Nat) (steps : List (Env × Req)) (j : Jar)
+    (h0 : jarFlag j = false) (h : jarFlag (runBrowser c fuel j steps).1 = true) :
+    ∃ p ∈ steps.zip (runBrowser c fuel j steps).2, LoginEvent c p.1.1 p.2 :=
+  Oidc.World.flag_needs_login c fuel steps j h0 h
+
+/-- **history, the gate.** a request is forwarded at the end of such a sequence only if an earlier step was a login event and
+    the stored ID token is accepted by the verifier at this moment (no provider call), or this step performed exactly one
+    refresh grant whose ID token passed `VerifyToken` -/
+theorem forward_needs_login (c : Cfg) (fuel : Nat) (pre : List (Env × Req)) (j0 : Jar) (e : Env) (r : Req)
+    (hd : List (Str × Str)) (h0 : jarFlag j0 = false)
+    (hf : (serveJar c e r (runBrowser c fuel j0 pre).1 fuel).1.resp = .forward hd) :
+    ((∃ p ∈ pre.zip (runBrowser c fuel j0 pre).2, LoginEvent c p.1.1 p.2) ∧
+       (e.tok (getToken e.decompress (getSession c.maxAge (runBrowser c fuel j0 pre).1 e.now fuel) .access)).verdict e.now = .accept ∧
+       (serveJar c e r (runBrowser c fuel j0 pre).1 fuel).1.calls = [])
+    ∨ (∃ idRaw rt', e.refresh (getToken e.decompress (getSession c.maxAge (runBrowser c fuel j0 pre).1 e.now fuel) .refresh) = .ok idRaw rt' ∧
+         e.verifyTok idRaw = true ∧
+         (serveJar c e r (runBrowser c fuel j0 pre).1 fuel).1.calls =
+           [Call.refresh (getToken e.decompress (getSession c.maxAge (runBrowser c fuel j0 pre).1 e.now fuel) .refresh)]) :=
+  Oidc.World.forward_needs_login c fuel pre j0 e r hd h0 hf
+
+/-! non-vacuity: the empty jar is unauthenticated and is redirected; an excluded path passes -/
+example : jarFlag (fun _ => none) = false := rfl
 def exC : Cfg where
   excluded := ["/pub".toList]
   callback := "/cb".toList
